@@ -320,6 +320,10 @@ def main(argv=None):
         )
         with open(os.path.join(EVID, f"{prop}.json"), "w") as f:
             json.dump(ev, f, indent=1, default=repr)
+        if not a.only:
+            # keep the last complete run of each tier as well (evidence/<id>.json is always the latest run)
+            with open(os.path.join(EVID, f"{prop}.{tier}.json"), "w") as f:
+                json.dump(ev, f, indent=1, default=repr)
     if violations:
         return 1
     if harness_errors:
